@@ -21,7 +21,7 @@ use std::rc::Rc;
 use std::sync::Arc;
 use std::time::Duration;
 
-pub const RULE: &str = "bmp-station: histories of two wire-level BGP peers (session up / closed, announce with 6 attribute variants of which two are rejected by the import policy, withdraw; IPv4 prefixes) and up to two BMP stations that connect at any point (policy pre, post or both) to the daemon's BmpClient::serve over a loopback socket; in 40% of the cases the peers send Add-Path and the daemon only receives it, and the station decides from the two OPENs of Peer Up whether monitored UPDATEs carry path identifiers. \
+pub const RULE: &str = "bmp-station: histories of two wire-level BGP peers (session up / closed, announce with 6 attribute variants of which two are rejected by the import policy and the others rewritten by it (MED, community), withdraw; IPv4 prefixes) and up to two BMP stations that connect at any point (policy pre, post or both) to the daemon's BmpClient::serve over a loopback socket; in 40% of the cases the peers send Add-Path and the daemon only receives it, and the station decides from the two OPENs of Peer Up whether monitored UPDATEs carry path identifiers. \
 The station's byte stream is cut into BMP messages by the independent reader, embedded UPDATEs are parsed by the repository's codec, and Route Monitoring is folded per (peer, prefix) into a pre-policy and a post-policy view (Peer Down clears the peer). At every quiescent point each view the station asked for equals the RIB's (Table::iter_reach / iter_reach_post); \
 Peer Down is seen only for a peer whose Peer Up the station was sent; the stream tiles into well-formed messages starting with Initiation. non-trivial := a station connects while routes are held, or a peer goes down while a station is connected";
 
@@ -209,8 +209,9 @@ async fn run_case(c: &Case) -> CheckResult {
             comm_sets: vec![vec![CommPat::Exact(0xfde8_0001)]],
             ext_sets: vec![vec![1]],
             large_sets: vec![vec![(1, 2, 3)]],
-            policies: vec![vec![0]],
-            stmts: vec![Stmt { conds: vec![Cond::CommunitySet(0, Opt::Any)], disp: Some(false), act: Act::default() }],
+            policies: vec![vec![0, 1]],
+            // ... and rewrite the accepted ones (MED 77, community 65000:2 added), so that the post-policy view differs from the pre-policy one in content too
+            stmts: vec![Stmt { conds: vec![Cond::CommunitySet(0, Opt::Any)], disp: Some(false), act: Act::default() }, Stmt { conds: vec![], disp: Some(true), act: Act { med: Some((false, 77)), community: Some((0, vec![0xfde8_0002])), ..Act::default() } }],
             assign: vec![0],
             default_accept: true,
             export: false,
